@@ -1,6 +1,7 @@
 package main
 
 import (
+	"github.com/ovh/kmip-go/payloads"
 	"context"
 	"fmt"
 	"net"
@@ -64,6 +65,19 @@ func c10RunStress(st c10Stress) (o c10StressObs) {
 		gr := h.NewRand(st.Seed*1000 + uint64(g))
 		go func(g int) {
 			defer wg.Done()
+			type keptResp struct {
+				id string
+				pl *payloads.EncryptResponsePayload
+			}
+			var kept []keptResp
+			defer func() {
+				for _, k := range kept {
+					if string(k.pl.Data) != k.id {
+						wrong.Add(1)
+						detail.CompareAndSwap(nil, fmt.Sprintf("the response returned to call %s carried %q when its caller looked at it again later", k.id, k.pl.Data))
+					}
+				}
+			}()
 			for i := 0; i < st.Calls; i++ {
 				id := fmt.Sprintf("g%d-%d", g, i)
 				var ctx context.Context
@@ -76,6 +90,24 @@ func c10RunStress(st c10Stress) (o c10StressObs) {
 					ctx, cancel = context.WithCancel(context.Background()) // never cancelled
 				default:
 					ctx, cancel = context.WithTimeout(context.Background(), time.Duration(1+gr.Intn(st.MaxTimeUS))*time.Microsecond)
+				}
+				if i%3 == 2 {
+					// the identifier as a byte string, checked when it comes back AND after the goroutine's
+					// later calls: a response belongs to its caller for good
+					pl, err := client.Request(ctx, &payloads.EncryptRequestPayload{UniqueIdentifier: "k", Data: []byte(id)})
+					cancel()
+					if ep, isE := pl.(*payloads.EncryptResponsePayload); err == nil && isE {
+						if string(ep.Data) != id {
+							wrong.Add(1)
+							detail.CompareAndSwap(nil, fmt.Sprintf("call %s received the response %q", id, ep.Data))
+						} else {
+							ok.Add(1)
+							kept = append(kept, keptResp{id, ep})
+						}
+					} else {
+						er.Add(1)
+					}
+					continue
 				}
 				r := ccDoCall(ctx, client, id)
 				cancel()
